@@ -130,7 +130,6 @@ Definition group_wf (g : bgroup) : bool :=
   | BChunkNone l => recs_wf l && len_ok (render_recs l)
   | BChunkComp comp payload l =>
     recs_wf l && (bytes_eqb comp s_lz4 || bytes_eqb comp s_bz2) && len_ok payload
-    && len_ok (render_fields (chunk_hdr comp (blen (render_recs l))))
   end.
 Definition bag_wf (b : abag) : bool := forallb group_wf b.
 
@@ -440,6 +439,83 @@ Qed.
 (* The record walk on rendered records                                                    *)
 (* ====================================================================================== *)
 
+Lemma firstn4_u32_only n : firstn 4 (u32 n) = u32 n.
+Proof. rewrite <- (app_nil_r (u32 n)) at 1. apply firstn4_u32. Qed.
+
+Lemma hdr3_keys_ok k1 v1 k2 v2 k3 v3 :
+  no_eq k1 = true -> no_eq k2 = true -> no_eq k3 = true -> keys_ok [(k1, v1); (k2, v2); (k3, v3)] = true.
+Proof. intros H1 H2 H3. cbn [keys_ok forallb fst]. rewrite H1, H2, H3. reflexivity. Qed.
+
+Lemma len_ok_lt b : len_ok b = true -> blen b < two32.
+Proof. unfold len_ok. intros H. apply N.ltb_lt. exact H. Qed.
+
+Lemma rec_wf_conn id topic fields : rec_wf (BConn id topic fields) = true ->
+  id <= 65535 /\ blen (render_fields (conn_hdr id topic)) < two32 /\ keys_ok fields = true /\ blen (render_fields fields) < two32.
+Proof.
+  intros Hwf. cbn [rec_wf] in Hwf.
+  apply andb_true_iff in Hwf as [Hwf H4]. apply andb_true_iff in Hwf as [Hwf H3].
+  apply andb_true_iff in Hwf as [H1 H2].
+  repeat split; [apply N.leb_le; exact H1|apply len_ok_lt; exact H2|exact H3|apply len_ok_lt; exact H4].
+Qed.
+
+Lemma msg_hdr_len conn secs nsecs : blen (render_fields (msg_hdr conn secs nsecs)) = 38.
+Proof.
+  unfold blen, render_fields, msg_hdr. cbn [map concat fst snd]. unfold render_field, fld.
+  rewrite !app_length. cbn [length]. rewrite !app_length, !u32_length. reflexivity.
+Qed.
+
+Lemma rec_wf_msg conn secs nsecs data : rec_wf (BMsg conn secs nsecs data) = true ->
+  conn <= 65535 /\ secs < two32 /\ nsecs < two32 /\ blen data < two32.
+Proof.
+  intros Hwf. cbn [rec_wf] in Hwf.
+  apply andb_true_iff in Hwf as [Hwf H4]. apply andb_true_iff in Hwf as [Hwf H3].
+  apply andb_true_iff in Hwf as [H1 H2].
+  repeat split; [apply N.leb_le; exact H1|apply N.ltb_lt; exact H2|apply N.ltb_lt; exact H3|apply len_ok_lt; exact H4].
+Qed.
+
+Lemma rec_calls_conn_seq id topic fields sk sq : snd (snd (rec_calls (BConn id topic fields) (sk, sq))) = sq.
+Proof. cbn [rec_calls]. destruct (sk_get _ _); reflexivity. Qed.
+
+Lemma rec_wf_other op extra data : rec_wf (BOther op extra data) = true ->
+  (Byte.to_N op =? 2) = false /\ (Byte.to_N op =? 5) = false /\ (Byte.to_N op =? 7) = false /\
+  blen (render_fields ((k_op, [op]) :: extra)) < two32 /\ blen data < two32.
+Proof.
+  intros Hwf. cbn [rec_wf] in Hwf.
+  apply andb_true_iff in Hwf as [Hwf H5]. apply andb_true_iff in Hwf as [Hwf H4].
+  apply andb_true_iff in Hwf as [Hwf H3]. apply andb_true_iff in Hwf as [H1 H2].
+  repeat split; try (apply negb_true_iff; assumption); apply len_ok_lt; assumption.
+Qed.
+
+Lemma recs_calls_cons r l st :
+  recs_calls (r :: l) st = (fst (rec_calls r st) ++ fst (recs_calls l (snd (rec_calls r st))),
+                            snd (recs_calls l (snd (rec_calls r st)))).
+Proof.
+  cbn [recs_calls]. destruct (rec_calls r st) as [c st1]. cbn [fst snd]. destruct (recs_calls l st1) as [cs st2]. reflexivity.
+Qed.
+
+Lemma render_recs_cons r l : render_recs (r :: l) = render_brec r ++ render_recs l.
+Proof. reflexivity. Qed.
+
+Lemma recs_calls_app l1 : forall l2 st,
+  recs_calls (l1 ++ l2) st = (fst (recs_calls l1 st) ++ fst (recs_calls l2 (snd (recs_calls l1 st))),
+                              snd (recs_calls l2 (snd (recs_calls l1 st)))).
+Proof.
+  induction l1 as [|r l1 IH]; intros l2 st.
+  - cbn [app recs_calls fst snd]. destruct (recs_calls l2 st). reflexivity.
+  - cbn [app]. rewrite !recs_calls_cons, IH. cbn [fst snd]. rewrite app_assoc. reflexivity.
+Qed.
+
+Lemma chunk_hdr_len comp n : blen (render_fields (chunk_hdr comp n)) = 37 + blen comp.
+Proof.
+  unfold blen, render_fields, chunk_hdr. cbn [map concat fst snd]. unfold render_field, fld.
+  rewrite !app_length. cbn [length]. rewrite ?app_length, ?u32_length.
+  change (length k_op) with 2%nat. change (length k_compression) with 11%nat. change (length k_size) with 4%nat.
+  cbn [length]. lia.
+Qed.
+
+Lemma bag_recs_cons g b : bag_recs (g :: b) = group_recs g ++ bag_recs b.
+Proof. reflexivity. Qed.
+
 Section Walk.
 Variable o : wopts.
 Variable lib : bytes.
@@ -526,14 +602,6 @@ Proof.
     rewrite rd_full_u32. rewrite unle_u32 by assumption. rewrite Hop. rewrite rd_full_app. reflexivity.
 Qed.
 
-
-Lemma firstn4_u32_only n : firstn 4 (u32 n) = u32 n.
-Proof. rewrite <- (app_nil_r (u32 n)) at 1. apply firstn4_u32. Qed.
-
-Lemma hdr3_keys_ok k1 v1 k2 v2 k3 v3 :
-  no_eq k1 = true -> no_eq k2 = true -> no_eq k3 = true -> keys_ok [(k1, v1); (k2, v2); (k3, v3)] = true.
-Proof. intros H1 H2 H3. cbn [keys_ok forallb fst]. rewrite H1, H2, H3. reflexivity. Qed.
-
 Definition conn_apply (id : N) (topic : bytes) (fields : kvs) (s : bstate) : bstate * option err :=
   let '(s, e, sid) :=
     match sk_get (conn_key fields) (b_schemas s) with
@@ -594,11 +662,10 @@ Lemma on_connection_rendered id topic fields w sq sk bs :
   on_connection o lib compress (render_fields (conn_hdr id topic)) (render_fields fields) (mks w bs sk)
   = (mks (exec (fst (rec_calls (BConn id topic fields) (sk, sq))) w) bs (fst (snd (rec_calls (BConn id topic fields) (sk, sq)))), None).
 Proof.
-  intros Hwf Hok. cbn [rec_wf] in Hwf. unfold len_ok in Hwf.
-  apply andb_true_iff in Hwf as [Hwf H4]. apply andb_true_iff in Hwf as [Hwf H3].
-  apply andb_true_iff in Hwf as [H1 H2].
-  rewrite on_connection_unfold by (assumption || (unfold two32; lia) || lia).
-  apply conn_apply_ok; [lia|assumption].
+  intros Hwf Hok. apply rec_wf_conn in Hwf as (H1 & H2 & H3 & H4).
+  assert (Hid : id < two32) by (unfold two32; lia).
+  rewrite on_connection_unfold by assumption.
+  apply conn_apply_ok; assumption.
 Qed.
 
 (* ----- message records ----- *)
@@ -611,12 +678,6 @@ Definition msg_apply (conn secs nsecs : N) (data : bytes) (s : bstate) : bstate 
   | Some e => (s', Some e)
   | None => ({| b_w := b_w s'; b_seq := (b_seq s' + 1) mod two32; b_schemas := b_schemas s' |}, None)
   end.
-
-Lemma msg_hdr_len conn secs nsecs : blen (render_fields (msg_hdr conn secs nsecs)) = 40.
-Proof.
-  unfold blen, render_fields, msg_hdr. cbn [map concat fst snd]. unfold render_field, fld.
-  rewrite !app_length. cbn [length]. rewrite !app_length, !u32_length. reflexivity.
-Qed.
 
 Lemma on_message_unfold conn secs nsecs data s :
   conn < two32 -> secs < two32 -> nsecs < two32 ->
@@ -654,11 +715,1083 @@ Lemma on_message_rendered conn secs nsecs data w sq sk :
   on_message o lib compress (render_fields (msg_hdr conn secs nsecs)) data (mks w (sq mod two32) sk)
   = (mks (exec (fst (rec_calls (BMsg conn secs nsecs data) (sk, sq))) w) ((sq + 1) mod two32) sk, None).
 Proof.
-  intros Hwf Hok. cbn [rec_wf] in Hwf. unfold len_ok in Hwf.
-  apply andb_true_iff in Hwf as [Hwf H4]. apply andb_true_iff in Hwf as [Hwf H3].
-  apply andb_true_iff in Hwf as [H1 H2].
-  rewrite on_message_unfold by ((unfold two32; lia) || lia).
-  apply msg_apply_ok; [lia|assumption].
+  intros Hwf Hok. apply rec_wf_msg in Hwf as (H1 & H2 & H3 & H4).
+  assert (Hid : conn < two32) by (unfold two32; lia).
+  rewrite on_message_unfold by assumption.
+  apply msg_apply_ok; assumption.
+Qed.
+
+
+(* ----- one record ----- *)
+
+Lemma step_rec cb e k r X f w sk sq :
+  rec_wf r = true -> all_ok (fst (rec_calls r (sk, sq))) w ->
+  loop (S f) (place cb (mkr (render_brec r ++ X) e k)) (mks w (sq mod two32) sk)
+  = loop f (place cb (mkr X e k))
+      (mks (exec (fst (rec_calls r (sk, sq))) w) (snd (snd (rec_calls r (sk, sq))) mod two32)
+           (fst (snd (rec_calls r (sk, sq))))).
+Proof.
+  intros Hwf Hok. destruct r as [id topic fields|conn secs nsecs data|op extra data]; cbn [render_brec].
+  - pose proof (rec_wf_conn _ _ _ Hwf) as (H1 & H2 & H3 & H4).
+    rewrite (loop_record f cb e k _ _ X _ x07 []); [|assumption|assumption|apply (extract_value_op x07); exact H2].
+    unfold dispatch. change (Byte.to_N x07 =? 5) with false. change (Byte.to_N x07 =? 7) with true. cbv iota.
+    rewrite (on_connection_rendered id topic fields w sq sk) by assumption.
+    rewrite rec_calls_conn_seq. reflexivity.
+  - pose proof (rec_wf_msg _ _ _ _ Hwf) as (H1 & H2 & H3 & H4).
+    assert (Hlen : blen (render_fields (msg_hdr conn secs nsecs)) < two32) by (rewrite msg_hdr_len; reflexivity).
+    rewrite (loop_record f cb e k _ _ X _ x02 []); [|assumption|assumption|apply (extract_value_op x02); exact Hlen].
+    unfold dispatch. change (Byte.to_N x02 =? 5) with false. change (Byte.to_N x02 =? 7) with false.
+    change (Byte.to_N x02 =? 2) with true. cbv iota.
+    rewrite (on_message_rendered conn secs nsecs data w sq sk) by assumption. reflexivity.
+  - pose proof (rec_wf_other _ _ _ Hwf) as (H1 & H2 & H3 & H4 & H5).
+    rewrite (loop_record f cb e k _ _ X _ op []); [|assumption|assumption|apply extract_value_op; exact H4].
+    unfold dispatch. rewrite H1, H2, H3. reflexivity.
+Qed.
+
+(* ----- a run of records ----- *)
+
+Lemma walk_recs cb e k : forall l X f w sk sq,
+  recs_wf l = true -> all_ok (fst (recs_calls l (sk, sq))) w ->
+  loop (length l + f) (place cb (mkr (render_recs l ++ X) e k)) (mks w (sq mod two32) sk)
+  = loop f (place cb (mkr X e k))
+      (mks (exec (fst (recs_calls l (sk, sq))) w) (snd (snd (recs_calls l (sk, sq))) mod two32)
+           (fst (snd (recs_calls l (sk, sq))))).
+Proof.
+  induction l as [|r l IH]; intros X f w sk sq Hwf Hok.
+  - reflexivity.
+  - cbn [recs_wf forallb] in Hwf. apply andb_true_iff in Hwf as [Hr Hl].
+    rewrite recs_calls_cons in Hok |- *. cbn [fst snd] in Hok |- *.
+    apply all_ok_app in Hok as [Hok1 Hok2].
+    rewrite render_recs_cons, <- app_assoc. cbn [length Nat.add].
+    rewrite step_rec by assumption.
+    destruct (rec_calls r (sk, sq)) as [c [sk1 sq1]] eqn:E. cbn [fst snd] in *.
+    rewrite IH by assumption. rewrite exec_app. reflexivity.
+Qed.
+
+
+(* ----- groups ----- *)
+
+
+Lemma loop_pop f b s k : loop (S f) (b, Some (mkr [] None k)) s = loop f (b, None) s.
+Proof. reflexivity. Qed.
+Lemma loop_end f k s : loop (S f) (mkr [] None k, None) s = (s, None).
+Proof. reflexivity. Qed.
+
+Lemma loop_record_top f e k h d X s opb opr :
+  blen h < two32 -> blen d < two32 ->
+  extract_value (S (length h)) h k_op = Ok (opb :: opr) ->
+  loop (S f) (mkr (render_record h d ++ X) e k, None) s = dispatch f h d opb (mkr X e k, None) s.
+Proof. exact (loop_record f None e k h d X s opb opr). Qed.
+
+Lemma chunk_rec_step f e k comp n d X s :
+  blen comp < 1000 -> no_eq k_compression = true -> blen d < two32 ->
+  loop (S f) (mkr (render_record (render_fields (chunk_hdr comp n)) d ++ X) e k, None) s
+  = if bytes_eqb comp s_none then
+      loop f (mkr X e k, Some {| r_buf := d; r_end := None; r_seek := true |}) s
+    else if bytes_eqb comp s_lz4 || bytes_eqb comp s_bz2 then
+      let '(plain, pend) := dstream comp d None in
+      loop f (mkr X e k, Some {| r_buf := plain; r_end := pend; r_seek := false |}) s
+    else (s, Some EOther).
+Proof.
+  intros Hc _ Hd.
+  assert (Hlen : blen (render_fields (chunk_hdr comp n)) < two32) by (rewrite chunk_hdr_len; unfold two32; lia).
+  assert (Hkeys : keys_ok (chunk_hdr comp n) = true) by (apply hdr3_keys_ok; reflexivity).
+  rewrite (loop_record_top f e k _ _ X _ x05 []); [|assumption|assumption|apply (extract_value_op x05); exact Hlen].
+  unfold dispatch. change (Byte.to_N x05 =? 5) with true. cbv iota.
+  rewrite extract_value_rendered by assumption.
+  change (kv_find k_compression (chunk_hdr comp n)) with (Some comp). cbv iota. reflexivity.
+Qed.
+
+Lemma walk_group e k g X f w sk sq :
+  group_wf g = true -> group_oracle dstream g ->
+  all_ok (fst (recs_calls (group_recs g) (sk, sq))) w ->
+  loop (group_fuel g + f) (mkr (render_group g ++ X) e k, None) (mks w (sq mod two32) sk)
+  = loop f (mkr X e k, None)
+      (mks (exec (fst (recs_calls (group_recs g) (sk, sq))) w) (snd (snd (recs_calls (group_recs g) (sk, sq))) mod two32)
+           (fst (snd (recs_calls (group_recs g) (sk, sq))))).
+Proof.
+  intros Hwf Hor Hok. destruct g as [l|l|comp payload l]; cbn [group_wf group_fuel render_group group_recs group_oracle] in *.
+  - apply (walk_recs None e k l X f w sk sq Hwf Hok).
+  - apply andb_true_iff in Hwf as [Hwf Hlen]. apply len_ok_lt in Hlen.
+    replace (length l + 2 + f)%nat with (S (length l + S f)) by lia.
+    rewrite chunk_rec_step; [|reflexivity|reflexivity|assumption].
+    change (bytes_eqb s_none s_none) with true. cbv iota.
+    pose proof (walk_recs (Some (mkr X e k)) None true l [] (S f) w sk sq Hwf Hok) as Hw.
+    rewrite app_nil_r in Hw. cbn [place] in Hw. unfold mkr at 2 in Hw. rewrite Hw.
+    apply loop_pop.
+  - apply andb_true_iff in Hwf as [Hwf Hlen]. apply len_ok_lt in Hlen.
+    apply andb_true_iff in Hwf as [Hwf Hcomp].
+    assert (Hc : blen comp < 1000 /\ bytes_eqb comp s_none = false).
+    { apply orb_true_iff in Hcomp as [Hc|Hc]; apply bytes_eqb_eq in Hc; subst comp; split; reflexivity. }
+    destruct Hc as [Hc1 Hc2].
+    replace (length l + 2 + f)%nat with (S (length l + S f)) by lia.
+    rewrite chunk_rec_step; [|assumption|reflexivity|assumption].
+    rewrite Hc2, Hcomp, Hor.
+    pose proof (walk_recs (Some (mkr X e k)) None false l [] (S f) w sk sq Hwf Hok) as Hw.
+    rewrite app_nil_r in Hw. cbn [place] in Hw. unfold mkr at 2 in Hw. rewrite Hw.
+    apply loop_pop.
+Qed.
+
+Definition groups_fuel (b : abag) : nat := fold_right (fun g n => (group_fuel g + n)%nat) 0%nat b.
+
+Lemma walk_groups e k : forall b X f w sk sq,
+  bag_wf b = true -> bag_oracle dstream b ->
+  all_ok (fst (recs_calls (bag_recs b) (sk, sq))) w ->
+  loop (groups_fuel b + f) (mkr (concat (map render_group b) ++ X) e k, None) (mks w (sq mod two32) sk)
+  = loop f (mkr X e k, None)
+      (mks (exec (fst (recs_calls (bag_recs b) (sk, sq))) w) (snd (snd (recs_calls (bag_recs b) (sk, sq))) mod two32)
+           (fst (snd (recs_calls (bag_recs b) (sk, sq))))).
+Proof.
+  induction b as [|g b IH]; intros X f w sk sq Hwf Hor Hok.
+  - reflexivity.
+  - cbn [bag_wf forallb] in Hwf. apply andb_true_iff in Hwf as [Hg Hb].
+    inversion Hor as [|g' b' Hog Hob]; subst.
+    rewrite bag_recs_cons, recs_calls_app in Hok |- *. cbn [fst snd] in Hok |- *.
+    apply all_ok_app in Hok as [Hok1 Hok2].
+    cbn [map concat groups_fuel fold_right]. fold (groups_fuel b). rewrite <- Nat.add_assoc, <- app_assoc.
+    rewrite walk_group by assumption.
+    destruct (recs_calls (group_recs g) (sk, sq)) as [c [sk1 sq1]] eqn:E. cbn [fst snd] in *.
+    rewrite IH by assumption. rewrite exec_app. reflexivity.
+Qed.
+
+(* ----- connection ids above 65535 are an error (channelIDForConnection) ----- *)
+Definition bad_id_rec (r : brec) : Prop :=
+  match r with
+  | BConn id topic fields =>
+    65535 < id < two32 /\ blen (render_fields (conn_hdr id topic)) < two32 /\ keys_ok fields = true /\
+    blen (render_fields fields) < two32
+  | BMsg conn secs nsecs data => 65535 < conn < two32 /\ secs < two32 /\ nsecs < two32 /\ blen data < two32
+  | BOther _ _ _ => False
+  end.
+
+Lemma conn_apply_bad id topic fields s : 65535 < id -> snd (conn_apply id topic fields s) <> None.
+Proof.
+  intros H. unfold conn_apply. destruct (65535 <? id) eqn:E; [|lia].
+  destruct (sk_get (conn_key fields) (b_schemas s)); [cbn; discriminate|].
+  destruct (wstep o lib compress (CSchema _) s) as [s' [e'|]]; cbn; discriminate.
+Qed.
+Lemma msg_apply_bad conn secs nsecs data s : 65535 < conn -> snd (msg_apply conn secs nsecs data s) <> None.
+Proof. intros H. unfold msg_apply. destruct (65535 <? conn) eqn:E; [cbn; discriminate|lia]. Qed.
+
+Lemma step_bad_rec e k r X f s : bad_id_rec r -> snd (loop (S f) (mkr (render_brec r ++ X) e k, None) s) <> None.
+Proof.
+  intros Hbad. destruct r as [id topic fields|conn secs nsecs data|op extra data]; cbn [render_brec bad_id_rec] in *; [| |contradiction].
+  - destruct Hbad as ([H0 H1] & H2 & H3 & H4).
+    rewrite (loop_record_top f e k _ _ X _ x07 []); [|assumption|assumption|apply (extract_value_op x07); exact H2].
+    unfold dispatch. change (Byte.to_N x07 =? 5) with false. change (Byte.to_N x07 =? 7) with true. cbv iota.
+    rewrite on_connection_unfold by assumption.
+    pose proof (conn_apply_bad id topic fields s H0) as Hb.
+    destruct (conn_apply id topic fields s) as [s' [e'|]]; [cbn; discriminate|]. cbn in Hb. congruence.
+  - destruct Hbad as ([H0 H1] & H2 & H3 & H4).
+    assert (Hlen : blen (render_fields (msg_hdr conn secs nsecs)) < two32) by (rewrite msg_hdr_len; reflexivity).
+    rewrite (loop_record_top f e k _ _ X _ x02 []); [|assumption|assumption|apply (extract_value_op x02); exact Hlen].
+    unfold dispatch. change (Byte.to_N x02 =? 5) with false. change (Byte.to_N x02 =? 7) with false.
+    change (Byte.to_N x02 =? 2) with true. cbv iota.
+    rewrite on_message_unfold by assumption.
+    pose proof (msg_apply_bad conn secs nsecs data s H0) as Hb.
+    destruct (msg_apply conn secs nsecs data s) as [s' [e'|]]; [cbn; discriminate|]. cbn in Hb. congruence.
+Qed.
+
+Lemma walk_bag k : forall b f w sk sq,
+  bag_wf b = true -> bag_oracle dstream b ->
+  all_ok (fst (recs_calls (bag_recs b) (sk, sq))) w ->
+  loop (bag_fuel b + f) (mkr (concat (map render_group b)) None k, None) (mks w (sq mod two32) sk)
+  = (mks (exec (fst (recs_calls (bag_recs b) (sk, sq))) w) (snd (snd (recs_calls (bag_recs b) (sk, sq))) mod two32)
+         (fst (snd (recs_calls (bag_recs b) (sk, sq)))), None).
+Proof.
+  induction b as [|g b IH]; intros f w sk sq Hwf Hor Hok.
+  - apply loop_end.
+  - cbn [bag_wf forallb] in Hwf. apply andb_true_iff in Hwf as [Hg Hb].
+    inversion Hor as [|g' b' Hog Hob]; subst.
+    rewrite bag_recs_cons, recs_calls_app in Hok |- *. cbn [fst snd] in Hok |- *.
+    apply all_ok_app in Hok as [Hok1 Hok2].
+    cbn [map concat bag_fuel fold_right]. fold (bag_fuel b). rewrite <- Nat.add_assoc.
+    rewrite walk_group by assumption.
+    destruct (recs_calls (group_recs g) (sk, sq)) as [c [sk1 sq1]] eqn:E. cbn [fst snd] in *.
+    rewrite IH by assumption. rewrite exec_app. reflexivity.
 Qed.
 
 End Walk.
+
+(* ====================================================================================== *)
+(* Task 2: a well-formed bag is converted by exactly the expected writer calls            *)
+(* ====================================================================================== *)
+
+Definition calls_ok (r : wresult) : Prop := r_new r = None /\ Forall (fun x => fst x = None) (r_calls r).
+
+Lemma finish_eq o compress w e :
+  (let '(w', _) := close o compress None w in {| br_err := e; br_writes := rev (w_out w'); br_final := w' |})
+  = {| br_err := e; br_writes := rev (w_out (fst (close o compress None w))); br_final := fst (close o compress None w) |}.
+Proof. destruct (close o compress None w). reflexivity. Qed.
+
+Lemma bag2mcap_wf_eq o lib compress dstream b fuel :
+  bag_wf b = true -> bag_oracle dstream b -> (bag_fuel b <= fuel)%nat ->
+  calls_ok (W o lib compress None (expected_calls b)) ->
+  bag2mcap o lib compress dstream fuel (render_bag b)
+  = {| br_err := None; br_writes := r_writes (W o lib compress None (expected_calls b));
+       br_final := r_final (W o lib compress None (expected_calls b)) |}.
+Proof.
+  intros Hwf Hor Hfuel [Hnew Hcalls]. unfold W, bag2mcap in *.
+  set (o' := effective_opts o) in *.
+  destruct (new_writer o' None) as [w0 [e0|]]; [cbn [r_new] in Hnew; discriminate|].
+  rewrite run_calls_exec in Hcalls |- *. cbn [r_calls r_writes r_final rev app] in Hcalls |- *.
+  apply results_all_ok in Hcalls. unfold expected_calls in Hcalls |- *.
+  cbn [all_ok] in Hcalls. destruct Hcalls as [Hh Hrest]. apply all_ok_app in Hrest as [Hrecs Hclose].
+  cbn [all_ok] in Hclose. destruct Hclose as [Hclose _].
+  cbn [exec]. rewrite exec_app. cbn [exec].
+  unfold wstep. cbn [b_w b_seq b_schemas]. fold ros1_header.
+  destruct (step o' lib compress None (CHeader ros1_header) w0) as [w1 e1] eqn:Eh.
+  cbn [fst snd] in Hh, Hrecs, Hclose |- *. subst e1.
+  unfold render_bag. change 13 with (blen bag_magic). rewrite rd_full_app.
+  rewrite bytes_eqb_refl. cbn [negb].
+  change (bag_loop o' lib compress dstream fuel {| r_buf := concat (map render_group b); r_end := None; r_seek := false |} None
+            {| b_w := w1; b_seq := 0; b_schemas := [] |})
+    with (loop o' lib compress dstream fuel (mkr (concat (map render_group b)) None false, None) (mks w1 (0 mod two32) [])).
+  replace fuel with (bag_fuel b + (fuel - bag_fuel b))%nat by lia.
+  rewrite walk_bag by assumption. unfold mks. cbn [b_w].
+  change (step o' lib compress None CClose) with (close o' compress None).
+  rewrite finish_eq. reflexivity.
+Qed.
+
+Theorem bag2mcap_wf o lib compress dstream b fuel :
+  bag_wf b = true -> bag_oracle dstream b -> (bag_fuel b <= fuel)%nat ->
+  calls_ok (W o lib compress None (expected_calls b)) ->
+  let R := bag2mcap o lib compress dstream fuel (render_bag b) in
+  br_err R = None /\
+  br_writes R = r_writes (W o lib compress None (expected_calls b)) /\
+  br_final R = r_final (W o lib compress None (expected_calls b)).
+Proof.
+  intros Hwf Hor Hfuel Hok R. subst R. rewrite bag2mcap_wf_eq by assumption. repeat split.
+Qed.
+
+Lemma bag_fuel_groups b : bag_fuel b = S (groups_fuel b).
+Proof. unfold bag_fuel, groups_fuel. induction b as [|g b IH]; cbn [fold_right]; [reflexivity|]. rewrite IH. lia. Qed.
+
+(* a record with a connection id above 65535 after a well-formed prefix: the conversion reports an error *)
+Theorem bag2mcap_bad_conn_id o lib compress dstream b r rest fuel :
+  bag_wf b = true -> bag_oracle dstream b -> (bag_fuel b <= fuel)%nat ->
+  calls_ok (W o lib compress None (CHeader ros1_header :: fst (recs_calls (bag_recs b) ([], 0)))) ->
+  bad_id_rec r ->
+  br_err (bag2mcap o lib compress dstream fuel (render_bag b ++ render_brec r ++ rest)) <> None.
+Proof.
+  intros Hwf Hor Hfuel [Hnew Hcalls] Hbad. unfold W, bag2mcap in *.
+  set (o' := effective_opts o) in *.
+  destruct (new_writer o' None) as [w0 [e0|]]; [cbn [r_new] in Hnew; discriminate|].
+  rewrite run_calls_exec in Hcalls. cbn [r_calls rev app] in Hcalls.
+  apply results_all_ok in Hcalls. cbn [all_ok] in Hcalls. destruct Hcalls as [Hh Hrecs].
+  unfold wstep. cbn [b_w b_seq b_schemas]. fold ros1_header.
+  destruct (step o' lib compress None (CHeader ros1_header) w0) as [w1 e1] eqn:Eh.
+  cbn [fst snd] in Hh, Hrecs |- *. subst e1.
+  unfold render_bag. rewrite <- app_assoc. change 13 with (blen bag_magic). rewrite rd_full_app.
+  rewrite bytes_eqb_refl. cbn [negb].
+  rewrite bag_fuel_groups in Hfuel.
+  change (bag_loop o' lib compress dstream fuel
+            {| r_buf := concat (map render_group b) ++ render_brec r ++ rest; r_end := None; r_seek := false |} None
+            {| b_w := w1; b_seq := 0; b_schemas := [] |})
+    with (loop o' lib compress dstream fuel (mkr (concat (map render_group b) ++ render_brec r ++ rest) None false, None)
+            (mks w1 (0 mod two32) [])).
+  replace fuel with (groups_fuel b + S (fuel - groups_fuel b - 1))%nat by lia.
+  rewrite walk_groups by assumption.
+  match goal with |- context [loop o' lib compress dstream (S ?f) ?p ?s] =>
+    pose proof (step_bad_rec o' lib compress dstream None false r rest f s Hbad) as Hb;
+    destruct (loop o' lib compress dstream (S f) p s) as [s2 e2] end.
+  cbn [snd] in Hb. rewrite finish_err. exact Hb.
+Qed.
+
+(* ====================================================================================== *)
+(* Task 1b: the record walk terminates (fuel is never the reason for its answer)          *)
+(* ====================================================================================== *)
+
+(* one iteration of processBag's loop: either continue with new readers and state, or stop with a result *)
+Inductive bnext := BCont (base : rdr) (chunk : option rdr) (s : bstate) | BStop (r : bstate * option err).
+
+Lemma rd_full_ok n r x r' : rd_full n r = (x, None, r') ->
+  r_buf r = x ++ r_buf r' /\ blen x = n.
+Proof.
+  unfold rd_full. destruct (n =? 0) eqn:E0.
+  - intros H. inversion H; subst. split; [reflexivity|]. cbn. lia.
+  - destruct (n <=? blen (r_buf r)) eqn:E1; [|discriminate].
+    intros H. inversion H; subst. cbn [r_buf]. split; [symmetry; apply take_drop|].
+    apply take_length_eq. lia.
+Qed.
+
+Definition after (chunk : option rdr) (base r4 : rdr) : rdr * option rdr :=
+  match chunk with Some _ => (base, Some r4) | None => (r4, None) end.
+Definition cur_of (chunk : option rdr) (base : rdr) : rdr := match chunk with Some r => r | None => base end.
+
+Section Total.
+Variable o : wopts.
+Variable lib : bytes.
+Variable compress : nat -> bytes -> bytes.
+Variable dstream : doracle.
+
+Definition bag_step (base : rdr) (chunk : option rdr) (s : bstate) : bnext :=
+  let cur := match chunk with Some r => r | None => base end in
+  let set_cur (r : rdr) := match chunk with Some _ => (base, Some r) | None => (r, None) end in
+  let '(hl, e, r1) := rd_full 4 cur in
+  match e with
+  | Some EEOF =>
+    match chunk with
+    | Some _ => BCont base None s
+    | None => BStop (s, None)
+    end
+  | Some e => BStop (s, Some e)
+  | None =>
+    let hlen := unle hl in
+    let '(hdr, e, r2) := rd_full hlen r1 in
+    match e with
+    | Some e => BStop (s, Some e)
+    | None =>
+      let '(dl, e, r3) := rd_full 4 r2 in
+      match e with
+      | Some e => BStop (s, Some e)
+      | None =>
+        let dlen := unle dl in
+        match extract_value (S (length hdr)) hdr k_op with
+        | Ok [] => BStop (s, Some EOther)
+        | Ok (opb :: _) =>
+          let '(data, e, r4) := rd_full dlen r3 in
+          match e with
+          | Some e => BStop (s, Some e)
+          | None =>
+            let '(base', chunk') := set_cur r4 in
+            let op := Byte.to_N opb in
+            if op =? 5 then
+              match extract_value (S (length hdr)) hdr k_compression with
+              | Ok comp =>
+                if bytes_eqb comp s_none then
+                  BCont base' (Some {| r_buf := data; r_end := None; r_seek := true |}) s
+                else if bytes_eqb comp s_lz4 || bytes_eqb comp s_bz2 then
+                  let '(plain, pend) := dstream comp data None in
+                  BCont base' (Some {| r_buf := plain; r_end := pend; r_seek := false |}) s
+                else BStop (s, Some EOther)
+              | Err e => BStop (s, Some e)
+              | _ => BStop (s, Some EOther)
+              end
+            else if op =? 7 then
+              match on_connection o lib compress hdr data s with
+              | (s', None) => BCont base' chunk' s'
+              | (s', Some e) => BStop (s', Some e)
+              end
+            else if op =? 2 then
+              match on_message o lib compress hdr data s with
+              | (s', None) => BCont base' chunk' s'
+              | (s', Some e) => BStop (s', Some e)
+              end
+            else BCont base' chunk' s
+          end
+        | Err e => BStop (s, Some e)
+        | _ => BStop (s, Some EOther)
+        end
+      end
+    end
+  end.
+
+(* the model's loop is the iteration of bag_step *)
+Lemma bag_loop_step f base chunk s :
+  bag_loop o lib compress dstream (S f) base chunk s
+  = match bag_step base chunk s with
+    | BCont b c s' => bag_loop o lib compress dstream f b c s'
+    | BStop r => r
+    end.
+Proof.
+  unfold bag_step. cbn [bag_loop].
+  repeat match goal with
+  | |- context [match ?x with _ => _ end] => destruct x
+  end; reflexivity.
+Qed.
+
+
+(* the walk with explicit exhaustion: None = out of fuel *)
+Fixpoint bag_run (f : nat) (base : rdr) (chunk : option rdr) (s : bstate) : option (bstate * option err) :=
+  match f with
+  | O => None
+  | S f => match bag_step base chunk s with
+           | BCont b c s' => bag_run f b c s'
+           | BStop r => Some r
+           end
+  end.
+
+Lemma bag_run_sound : forall f base chunk s r,
+  bag_run f base chunk s = Some r -> bag_loop o lib compress dstream f base chunk s = r.
+Proof.
+  induction f as [|f IH]; intros base chunk s r H; [discriminate|].
+  rewrite bag_loop_step. cbn [bag_run] in H. destruct (bag_step base chunk s) as [b c s'|r'].
+  - apply IH. exact H.
+  - congruence.
+Qed.
+
+Lemma bag_run_mono : forall f base chunk s r f',
+  bag_run f base chunk s = Some r -> (f <= f')%nat -> bag_run f' base chunk s = Some r.
+Proof.
+  induction f as [|f IH]; intros base chunk s r f' H Hle; [discriminate|].
+  destruct f' as [|f']; [lia|]. cbn [bag_run] in H |- *.
+  destruct (bag_step base chunk s) as [b c s'|r']; [|exact H].
+  apply IH with (1 := H). lia.
+Qed.
+
+(* running out of fuel is reported by the model as EOther *)
+Lemma bag_run_none : forall f base chunk s,
+  bag_run f base chunk s = None -> exists s', bag_loop o lib compress dstream f base chunk s = (s', Some EOther).
+Proof.
+  induction f as [|f IH]; intros base chunk s H.
+  - exists s. reflexivity.
+  - rewrite bag_loop_step. cbn [bag_run] in H. destruct (bag_step base chunk s) as [b c s'|r']; [|discriminate].
+    apply IH. exact H.
+Qed.
+
+(* ----- what a successful read gives ----- *)
+
+(* the ways an iteration continues *)
+Lemma bag_step_cont base chunk s b c s' :
+  bag_step base chunk s = BCont b c s' ->
+  (exists r0, chunk = Some r0 /\ b = base /\ c = None) \/
+  (exists hl hdr dl data r4,
+     r_buf (cur_of chunk base) = hl ++ hdr ++ dl ++ data ++ r_buf r4 /\ blen hl = 4 /\ blen dl = 4 /\
+     ((b, c) = after chunk base r4
+      \/ (b = fst (after chunk base r4) /\ c = Some {| r_buf := data; r_end := None; r_seek := true |})
+      \/ (exists comp, extract_value (S (length hdr)) hdr k_compression = Ok comp /\
+                       (comp = s_lz4 \/ comp = s_bz2) /\
+                       b = fst (after chunk base r4) /\
+                       c = Some {| r_buf := fst (dstream comp data None); r_end := snd (dstream comp data None);
+                                   r_seek := false |}))).
+Proof.
+  intros H. unfold bag_step in H. fold (cur_of chunk base) in H.
+  destruct (rd_full 4 (cur_of chunk base)) as [[hl e1] r1] eqn:E1. destruct e1 as [e1|].
+  { left. destruct e1; try discriminate. destruct chunk as [r0|]; [|discriminate].
+    inversion H; subst. exists r0. repeat split. }
+  destruct (rd_full (unle hl) r1) as [[hdr e2] r2] eqn:E2. destruct e2; [discriminate|].
+  destruct (rd_full 4 r2) as [[dl e3] r3] eqn:E3. destruct e3; [discriminate|].
+  destruct (extract_value (S (length hdr)) hdr k_op) as [[|opb opr]| | | |] eqn:Eop; try discriminate.
+  destruct (rd_full (unle dl) r3) as [[data e4] r4] eqn:E4. destruct e4; [discriminate|].
+  right. exists hl, hdr, dl, data, r4.
+  apply rd_full_ok in E1 as [B1 L1]. apply rd_full_ok in E2 as [B2 L2].
+  apply rd_full_ok in E3 as [B3 L3]. apply rd_full_ok in E4 as [B4 L4].
+  split; [rewrite B1, B2, B3, B4; reflexivity|]. split; [exact L1|]. split; [exact L3|].
+  fold (after chunk base r4) in H. destruct (after chunk base r4) as [base' chunk'] eqn:Ea. cbn [fst].
+  destruct (Byte.to_N opb =? 5).
+  { destruct (extract_value (S (length hdr)) hdr k_compression) as [comp| | | |] eqn:Ec; try discriminate.
+    destruct (bytes_eqb comp s_none).
+    { inversion H; subst. right. left. split; reflexivity. }
+    destruct (bytes_eqb comp s_lz4 || bytes_eqb comp s_bz2) eqn:Eo; [|discriminate].
+    destruct (dstream comp data None) as [plain pend] eqn:Ed. inversion H; subst.
+    right. right. exists comp. split; [reflexivity|]. split.
+    { apply orb_true_iff in Eo as [Eo|Eo]; apply bytes_eqb_eq in Eo; auto. }
+    split; [reflexivity|rewrite Ed; reflexivity]. }
+  destruct (Byte.to_N opb =? 7).
+  { destruct (on_connection o lib compress hdr data s) as [s1 [e|]]; [discriminate|]. inversion H; subst. left. reflexivity. }
+  destruct (Byte.to_N opb =? 2).
+  { destruct (on_message o lib compress hdr data s) as [s1 [e|]]; [discriminate|]. inversion H; subst. left. reflexivity. }
+  inversion H; subst. left. reflexivity.
+Qed.
+
+End Total.
+
+(* ----- "the decompressed bytes contain no compressed chunk header": substrings ----- *)
+Definition has_sub (p buf : bytes) : Prop := exists a c, buf = a ++ p ++ c.
+Definition cc (comp : bytes) : bytes := k_compression ++ x3d :: comp.
+Definition clean (buf : bytes) : Prop := forall comp, comp = s_lz4 \/ comp = s_bz2 -> ~ has_sub (cc comp) buf.
+
+Lemma has_sub_mid p x y z : has_sub p y -> has_sub p (x ++ y ++ z).
+Proof.
+  intros [a [c H]]. subst y. exists (x ++ a), (c ++ z). rewrite <- !app_assoc. reflexivity.
+Qed.
+Lemma has_sub_r p x y : has_sub p y -> has_sub p (x ++ y).
+Proof. intros H. rewrite <- (app_nil_r y). apply has_sub_mid. exact H. Qed.
+Lemma has_sub_self p x z : has_sub p (x ++ p ++ z).
+Proof. exists x, z. reflexivity. Qed.
+
+Lemma clean_mid x y z : clean (x ++ y ++ z) -> clean y.
+Proof. intros H comp Hc Hs. apply (H comp Hc). apply has_sub_mid. exact Hs. Qed.
+Lemma clean_r x y : clean (x ++ y) -> clean y.
+Proof. intros H comp Hc Hs. apply (H comp Hc). apply has_sub_r. exact Hs. Qed.
+
+Lemma split_eq_some : forall s acc k v, split_eq s acc = Some (k, v) -> rev acc ++ s = k ++ x3d :: v.
+Proof.
+  induction s as [|b s IH]; intros acc k v H; [discriminate|].
+  cbn [split_eq] in H. destruct (Byte.to_N b =? 61) eqn:E.
+  - inversion H; subst. assert (b = x3d) by (apply to_N_inj; apply N.eqb_eq in E; rewrite E; reflexivity).
+    subst b. reflexivity.
+  - apply IH in H. cbn [rev] in H. rewrite <- app_assoc in H. exact H.
+Qed.
+
+Lemma extract_value_sub key : forall f hdr v, extract_value f hdr key = Ok v -> has_sub (key ++ x3d :: v) hdr.
+Proof.
+  induction f as [|f IH]; intros hdr v H; [discriminate|].
+  destruct hdr as [|b0 hdr0]; [discriminate|]. remember (b0 :: hdr0) as hdr eqn:Eh.
+  destruct (Nat.ltb_spec (length hdr) 4) as [Hs|Hs].
+  - rewrite extract_value_short in H by (subst; congruence || assumption). discriminate.
+  - rewrite extract_value_S in H by assumption. cbv zeta in H.
+    set (n := unle (firstn 4 hdr)) in *. set (rest := skipn 4 hdr) in *.
+    assert (Hh : hdr = firstn 4 hdr ++ take n rest ++ drop n rest).
+    { rewrite take_drop. symmetry. apply firstn_skipn. }
+    destruct (blen rest <? n); [discriminate|].
+    destruct (split_eq (take n rest) []) as [[k v']|] eqn:Es; [|discriminate].
+    apply split_eq_some in Es. cbn [rev app] in Es.
+    destruct (bytes_eqb k key) eqn:Ek.
+    + apply bytes_eqb_eq in Ek. inversion H; subst k v'. rewrite Hh, Es. apply has_sub_self.
+    + rewrite Hh. rewrite app_assoc. apply has_sub_r. apply IH. exact H.
+Qed.
+
+
+Section Measure.
+Variable o : wopts.
+Variable lib : bytes.
+Variable compress : nat -> bytes -> bytes.
+Variable dstream : doracle.
+Variables B L : nat.
+Hypothesis Hd : forall c a e, (length (fst (dstream c a e)) <= B)%nat /\ clean (fst (dstream c a e)).
+
+Let K : nat := ((L + 1) * (B + 2))%nat.
+
+(* the state of the walk has rank at most m *)
+Definition Rk (base : rdr) (chunk : option rdr) (m : nat) : Prop :=
+  (length (r_buf base) <= L)%nat /\
+  match chunk with
+  | None => (length (r_buf base) * K <= m)%nat
+  | Some r => (clean (r_buf r) /\ (length (r_buf base) * K + length (r_buf r) + 1 <= m)%nat)
+              \/ (length (r_buf base) * K + (length (r_buf r) + 1) * (B + 2) <= m)%nat
+  end.
+
+Lemma K_pos : (B + 2 <= K)%nat.
+Proof. unfold K. nia. Qed.
+
+Lemma rank_decreases base chunk s b c s' m :
+  Rk base chunk m -> bag_step o lib compress dstream base chunk s = BCont b c s' ->
+  exists m', (m' < m)%nat /\ Rk b c m'.
+Proof.
+  intros [HL HR] Hstep. pose proof K_pos as HK.
+  apply bag_step_cont in Hstep as [(r0 & Hc & Hb & Hn)|(hl & hdr & dl & data & r4 & Hbuf & Hl1 & Hl2 & Hcase)].
+  - (* pop *) subst. exists (length (r_buf base) * K)%nat. split; [|split; [assumption|lia]].
+    destruct HR as [[_ HR]|HR]; nia.
+  - assert (Hlen : (length (r_buf (cur_of chunk base)) = 8 + length hdr + length data + length (r_buf r4))%nat).
+    { rewrite Hbuf, !app_length. unfold blen in Hl1, Hl2. lia. }
+    destruct chunk as [r0|]; cbn [cur_of after fst] in *.
+    + (* inside a chunk *)
+      destruct Hcase as [Hcase|[[Hb Hc]|(comp & Hcomp & Hcc & Hb & Hc)]].
+      * inversion Hcase; subst b c. destruct HR as [[Hcl HR]|HR].
+        -- exists (length (r_buf base) * K + length (r_buf r4) + 1)%nat. split; [lia|]. split; [assumption|].
+           left. cbn [r_buf]. split; [|lia]. rewrite Hbuf in Hcl. rewrite !app_assoc in Hcl. apply clean_r in Hcl. exact Hcl.
+        -- exists (length (r_buf base) * K + (length (r_buf r4) + 1) * (B + 2))%nat. split; [nia|].
+           split; [assumption|]. right. cbn [r_buf]. lia.
+      * subst b c. cbn [r_buf]. destruct HR as [[Hcl HR]|HR].
+        -- exists (length (r_buf base) * K + length data + 1)%nat. split; [lia|]. split; [assumption|].
+           left. cbn [r_buf]. split; [|lia]. rewrite Hbuf in Hcl.
+           replace (hl ++ hdr ++ dl ++ data ++ r_buf r4) with ((hl ++ hdr ++ dl) ++ data ++ r_buf r4) in Hcl
+             by (rewrite <- !app_assoc; reflexivity).
+           apply clean_mid in Hcl. exact Hcl.
+        -- exists (length (r_buf base) * K + (length data + 1) * (B + 2))%nat. split; [nia|].
+           split; [assumption|]. right. cbn [r_buf]. lia.
+      * subst b c. cbn [r_buf]. destruct (Hd comp data None) as [HB Hclean].
+        destruct HR as [[Hcl HR]|HR].
+        -- exfalso. apply extract_value_sub in Hcomp. apply (Hcl comp Hcc). rewrite Hbuf.
+           apply has_sub_mid. exact Hcomp.
+        -- exists (length (r_buf base) * K + length (fst (dstream comp data None)) + 1)%nat. split; [nia|].
+           split; [assumption|]. left. cbn [r_buf]. split; [exact Hclean|lia].
+    + (* top level *)
+      destruct Hcase as [Hcase|[[Hb Hc]|(comp & Hcomp & Hcc & Hb & Hc)]].
+      * inversion Hcase; subst b c. exists (length (r_buf r4) * K)%nat. split; [nia|]. split; lia.
+      * subst b c. cbn [r_buf]. exists (length (r_buf r4) * K + (length data + 1) * (B + 2))%nat.
+        split; [unfold K in *; nia|]. split; [lia|]. right. cbn [r_buf]. lia.
+      * subst b c. cbn [r_buf]. destruct (Hd comp data None) as [HB Hclean].
+        exists (length (r_buf r4) * K + length (fst (dstream comp data None)) + 1)%nat.
+        split; [nia|]. split; [lia|]. left. cbn [r_buf]. split; [exact Hclean|lia].
+Qed.
+
+Lemma bag_run_total : forall f m base chunk s,
+  Rk base chunk m -> (m < f)%nat -> exists r, bag_run o lib compress dstream f base chunk s = Some r.
+Proof.
+  induction f as [|f IH]; intros m base chunk s HR Hm; [lia|].
+  cbn [bag_run]. destruct (bag_step o lib compress dstream base chunk s) as [b c s'|r] eqn:E.
+  - destruct (rank_decreases _ _ _ _ _ _ _ HR E) as (m' & Hlt & HR'). apply (IH m'); [assumption|lia].
+  - exists r. reflexivity.
+Qed.
+
+End Measure.
+
+Definition oracle_bounded_clean (dstream : doracle) (B : nat) : Prop :=
+  forall c a e, (length (fst (dstream c a e)) <= B)%nat /\ clean (fst (dstream c a e)).
+Definition walk_fuel (L B : nat) : nat := S (L * ((L + 1) * (B + 2))).
+
+Lemma walk_fuel_mono L L' B : (L' <= L)%nat -> (walk_fuel L' B <= walk_fuel L B)%nat.
+Proof.
+  intros H. unfold walk_fuel. apply le_n_S. apply Nat.mul_le_mono; [assumption|].
+  apply Nat.mul_le_mono; lia.
+Qed.
+
+Theorem bag_loop_total o lib compress dstream B base s fuel :
+  oracle_bounded_clean dstream B ->
+  (walk_fuel (length (r_buf base)) B <= fuel)%nat ->
+  exists r, bag_run o lib compress dstream fuel base None s = Some r /\
+            forall fuel', (fuel <= fuel')%nat -> bag_loop o lib compress dstream fuel' base None s = r.
+Proof.
+  intros Hd Hf. unfold walk_fuel in Hf.
+  destruct (bag_run_total o lib compress dstream B (length (r_buf base)) Hd fuel
+              (length (r_buf base) * ((length (r_buf base) + 1) * (B + 2)))%nat base None s) as [r Hr].
+  - split; [lia|]. cbn. lia.
+  - lia.
+  - exists r. split; [exact Hr|]. intros fuel' Hle. apply bag_run_sound. apply bag_run_mono with (1 := Hr). exact Hle.
+Qed.
+
+(* the conversion as a whole does not depend on the fuel once there is enough of it *)
+Theorem bag2mcap_fuel_independent o lib compress dstream B input fuel1 fuel2 :
+  oracle_bounded_clean dstream B ->
+  (walk_fuel (length input) B <= fuel1)%nat -> (walk_fuel (length input) B <= fuel2)%nat ->
+  bag2mcap o lib compress dstream fuel1 input = bag2mcap o lib compress dstream fuel2 input.
+Proof.
+  intros Hd H1 H2. unfold bag2mcap.
+  destruct (new_writer (effective_opts o) None) as [w [e|]]; [reflexivity|].
+  destruct (wstep (effective_opts o) lib compress _ _) as [s1 [e|]]; [reflexivity|].
+  destruct (rd_full 13 _) as [[m e] r1] eqn:Er. destruct e as [e|]; [reflexivity|].
+  destruct (negb (bytes_eqb m bag_magic)); [reflexivity|].
+  apply rd_full_ok in Er as [Hb _]. cbn [r_buf] in Hb.
+  assert (Hlen : (length (r_buf r1) <= length input)%nat) by (rewrite Hb, app_length; lia).
+  pose proof (walk_fuel_mono _ _ B Hlen) as Hm.
+  destruct (bag_loop_total (effective_opts o) lib compress dstream B r1 s1 (walk_fuel (length (r_buf r1)) B) Hd (le_n _))
+    as (r & _ & Hr).
+  rewrite (Hr fuel1), (Hr fuel2) by lia. reflexivity.
+Qed.
+
+(* ----- the walk does NOT terminate for every length-bounded oracle: nested compressed chunks ----- *)
+Definition quine_chunk : bytes := render_record (render_fields (chunk_hdr s_lz4 0)) [].
+Definition quine_oracle : doracle := fun _ _ _ => (quine_chunk, None).
+
+Lemma quine_oracle_bounded : forall c a e, (length (fst (quine_oracle c a e)) <= 48)%nat.
+Proof. intros. vm_compute. lia. Qed.
+
+Lemma bag_run_diverges_in_chunk o lib compress : forall f base s,
+  bag_run o lib compress quine_oracle f base (Some {| r_buf := quine_chunk; r_end := None; r_seek := false |}) s = None.
+Proof.
+  induction f as [|f IH]; intros base s; [reflexivity|].
+  cbn [bag_run].
+  change (bag_step o lib compress quine_oracle base (Some {| r_buf := quine_chunk; r_end := None; r_seek := false |}) s)
+    with (BCont base (Some {| r_buf := quine_chunk; r_end := None; r_seek := false |}) s).
+  apply IH.
+Qed.
+
+Theorem bag_run_diverges o lib compress fuel s :
+  bag_run o lib compress quine_oracle fuel {| r_buf := quine_chunk; r_end := None; r_seek := false |} None s = None.
+Proof.
+  destruct fuel as [|f]; [reflexivity|]. cbn [bag_run].
+  change (bag_step o lib compress quine_oracle {| r_buf := quine_chunk; r_end := None; r_seek := false |} None s)
+    with (BCont {| r_buf := []; r_end := None; r_seek := false |}
+                (Some {| r_buf := quine_chunk; r_end := None; r_seek := false |}) s).
+  apply bag_run_diverges_in_chunk.
+Qed.
+
+(* ====================================================================================== *)
+(* Readable consequences for expected_calls                                               *)
+(* ====================================================================================== *)
+
+Fixpoint number_from {A} (i : N) (l : list A) : list (N * A) :=
+  match l with [] => [] | x :: r => (i, x) :: number_from (i + 1) r end.
+
+Lemma number_from_app {A} (l1 : list A) : forall i l2,
+  number_from i (l1 ++ l2) = number_from i l1 ++ number_from (i + N.of_nat (length l1)) l2.
+Proof.
+  induction l1 as [|x l1 IH]; intros i l2; cbn [app number_from length].
+  - rewrite N.add_0_r. reflexivity.
+  - rewrite IH. replace (i + N.of_nat (S (length l1))) with (i + 1 + N.of_nat (length l1)) by lia. reflexivity.
+Qed.
+
+Lemma number_from_bound {A} (l : list A) : forall i j x, In (j, x) (number_from i l) -> i <= j < i + N.of_nat (length l).
+Proof.
+  induction l as [|y l IH]; intros i j x H; cbn [number_from In length] in H |- *; [contradiction|].
+  destruct H as [H|H]; [inversion H; lia|]. apply IH in H. lia.
+Qed.
+
+(* ----- messages ----- *)
+Definition rec_msg (r : brec) : list (N * N * N * bytes) :=
+  match r with BMsg c s n d => [(c, s, n, d)] | _ => [] end.
+Definition bag_msgs (b : abag) : list (N * N * N * bytes) := flat_map rec_msg (bag_recs b).
+Definition call_msg (c : wcall) : list message := match c with CMessage m => [m] | _ => [] end.
+Definition calls_msgs (cs : list wcall) : list message := flat_map call_msg cs.
+Definition msg_of (im : N * (N * N * N * bytes)) : message :=
+  let '(i, (c, s, n, d)) := im in msg_message c s n d i.
+
+Lemma calls_msgs_recs : forall l sk sq,
+  calls_msgs (fst (recs_calls l (sk, sq))) = map msg_of (number_from sq (flat_map rec_msg l)) /\
+  snd (snd (recs_calls l (sk, sq))) = sq + N.of_nat (length (flat_map rec_msg l)).
+Proof.
+  induction l as [|r l IH]; intros sk sq.
+  - cbn. split; [reflexivity|lia].
+  - rewrite recs_calls_cons. cbn [fst snd flat_map]. unfold calls_msgs. rewrite flat_map_app. fold (calls_msgs).
+    destruct r as [id topic fields|c s n d|op extra data]; cbn [rec_calls rec_msg app].
+    + destruct (sk_get (conn_key fields) sk); cbn [fst snd flat_map call_msg app]; apply IH.
+    + cbn [fst snd flat_map call_msg app number_from map msg_of length].
+      destruct (IH sk (sq + 1)) as [H1 H2]. fold (calls_msgs (fst (recs_calls l (sk, sq + 1)))).
+      rewrite H1, H2. split; [reflexivity|lia].
+    + cbn [fst snd flat_map call_msg app]. apply IH.
+Qed.
+
+(* one CMessage per bag message, in bag order, same bytes, both times = secs * 10^9 + nsecs, on the
+   channel with the connection's id, sequence numbers 0, 1, 2, ... (as a uint32) *)
+Theorem expected_messages b :
+  calls_msgs (expected_calls b) = map msg_of (number_from 0 (bag_msgs b)).
+Proof.
+  unfold expected_calls, calls_msgs. cbn [flat_map call_msg app]. rewrite flat_map_app. cbn [flat_map call_msg].
+  rewrite app_nil_r. apply (calls_msgs_recs (bag_recs b) [] 0).
+Qed.
+
+Lemma msg_of_fields i c s n d :
+  let m := msg_of (i, (c, s, n, d)) in
+  m_chan m = c /\ m_seq m = i mod two32 /\ m_log m = s * 1000000000 + n /\ m_pub m = s * 1000000000 + n /\ m_data m = d.
+Proof. cbn. repeat split. Qed.
+
+Corollary expected_messages_count b : length (calls_msgs (expected_calls b)) = length (bag_msgs b).
+Proof.
+  rewrite expected_messages, map_length. generalize 0. induction (bag_msgs b) as [|x l IH]; intros i; cbn [number_from length]; [reflexivity|].
+  rewrite IH. reflexivity.
+Qed.
+
+Corollary expected_messages_data b : map m_data (calls_msgs (expected_calls b)) = map (fun x => snd x) (bag_msgs b).
+Proof.
+  rewrite expected_messages, map_map. generalize 0. induction (bag_msgs b) as [|[[[c s] n] d] l IH]; intros i; cbn [number_from map]; [reflexivity|].
+  rewrite IH. reflexivity.
+Qed.
+
+Corollary expected_messages_seq b : N.of_nat (length (bag_msgs b)) <= two32 ->
+  map m_seq (calls_msgs (expected_calls b)) = map fst (number_from 0 (bag_msgs b)).
+Proof.
+  intros Hn. rewrite expected_messages, map_map. apply map_ext_in. intros [i [[[c s] n] d]] Hin.
+  apply number_from_bound in Hin. cbn. apply N.mod_small. lia.
+Qed.
+
+(* ----- schemas ----- *)
+Definition rec_conn (r : brec) : list (N * bytes * kvs) :=
+  match r with BConn id topic fields => [(id, topic, fields)] | _ => [] end.
+Definition bag_conns (b : abag) : list (N * bytes * kvs) := flat_map rec_conn (bag_recs b).
+Definition call_schema (c : wcall) : list schema := match c with CSchema s => [s] | _ => [] end.
+Definition calls_schemas (cs : list wcall) : list schema := flat_map call_schema cs.
+Definition call_channel (c : wcall) : list channel := match c with CChannel s => [s] | _ => [] end.
+Definition calls_channels (cs : list wcall) : list channel := flat_map call_channel cs.
+
+Definition seen_b (key : bytes) (seen : list bytes) : bool := existsb (fun k => bytes_eqb k key) seen.
+(* the connections that introduce a new "type/md5sum" key, in order *)
+Fixpoint firsts (l : list (N * bytes * kvs)) (seen : list bytes) : list kvs :=
+  match l with
+  | [] => []
+  | (_, _, f) :: r => if seen_b (conn_key f) seen then firsts r seen else f :: firsts r (seen ++ [conn_key f])
+  end.
+Definition schema_of (x : N * kvs) : schema := conn_schema (snd x) ((fst x + 1) mod two16).
+Definition entry_of (x : N * kvs) : bytes * N := (conn_key (snd x), (fst x + 1) mod two16).
+
+Lemma sk_get_seen key : forall sk, sk_get key sk = None <-> seen_b key (map fst sk) = false.
+Proof.
+  induction sk as [|x sk IH]; cbn [sk_get map seen_b existsb]; [tauto|].
+  destruct (bytes_eqb (fst x) key); cbn [orb]; [split; discriminate|exact IH].
+Qed.
+
+Lemma calls_schemas_recs : forall l sk sq,
+  let new := number_from (N.of_nat (length sk)) (firsts (flat_map rec_conn l) (map fst sk)) in
+  calls_schemas (fst (recs_calls l (sk, sq))) = map schema_of new /\
+  fst (snd (recs_calls l (sk, sq))) = sk ++ map entry_of new.
+Proof.
+  induction l as [|r l IH]; intros sk sq.
+  - cbn. rewrite app_nil_r. split; reflexivity.
+  - rewrite recs_calls_cons. cbn [fst snd flat_map]. unfold calls_schemas. rewrite flat_map_app. fold calls_schemas.
+    destruct r as [id topic fields|c s n d|op extra data]; cbn [rec_calls rec_conn app].
+    + cbn [firsts]. destruct (sk_get (conn_key fields) sk) as [sid|] eqn:E.
+      * assert (Hs : seen_b (conn_key fields) (map fst sk) = true).
+        { destruct (seen_b (conn_key fields) (map fst sk)) eqn:E2; [reflexivity|]. apply sk_get_seen in E2. congruence. }
+        rewrite Hs. cbn [fst snd flat_map call_schema app]. apply IH.
+      * apply sk_get_seen in E. rewrite E. cbn [fst snd flat_map call_schema app number_from map].
+        specialize (IH (sk ++ [(conn_key fields, (N.of_nat (length sk) + 1) mod two16)]) sq).
+        rewrite map_app, app_length in IH. cbn [map fst length] in IH.
+        replace (N.of_nat (length sk + 1)) with (N.of_nat (length sk) + 1) in IH by lia.
+        destruct IH as [H1 H2]. fold (calls_schemas (fst (recs_calls l (sk ++ [(conn_key fields, (N.of_nat (length sk) + 1) mod two16)], sq)))).
+        rewrite H1, H2. rewrite <- app_assoc. split; reflexivity.
+    + cbn [fst snd flat_map call_schema app]. apply IH.
+    + cbn [fst snd flat_map call_schema app]. apply IH.
+Qed.
+
+(* one CSchema per distinct "type/md5sum" key, at the first connection that carries it, numbered 1, 2, ... (as a
+   uint16), named by the connection's type, encoding "ros1msg", data = its message_definition *)
+Theorem expected_schemas b :
+  calls_schemas (expected_calls b) = map schema_of (number_from 0 (firsts (bag_conns b) [])).
+Proof.
+  unfold expected_calls, calls_schemas. cbn [flat_map call_schema app]. rewrite flat_map_app. cbn [flat_map call_schema].
+  rewrite app_nil_r. apply (calls_schemas_recs (bag_recs b) [] 0).
+Qed.
+
+Lemma seen_b_app key a b : seen_b key (a ++ b) = seen_b key a || seen_b key b.
+Proof. apply existsb_app. Qed.
+
+Lemma seen_b_in key seen : seen_b key seen = true <-> In key seen.
+Proof.
+  unfold seen_b. rewrite existsb_exists. split.
+  - intros [k [Hin Hk]]. apply bytes_eqb_eq in Hk. subst. exact Hin.
+  - intros Hin. exists key. split; [exact Hin|apply bytes_eqb_refl].
+Qed.
+
+(* "in bijection with the distinct keys": the keys of the introducing connections are pairwise distinct, are not
+   among those seen before, and every connection's key is seen before or introduced *)
+Lemma firsts_spec : forall l seen,
+  NoDup (map conn_key (firsts l seen)) /\
+  (forall k, In k (map conn_key (firsts l seen)) -> ~ In k seen) /\
+  (forall c, In c l -> In (conn_key (snd c)) (seen ++ map conn_key (firsts l seen))).
+Proof.
+  induction l as [|[[id topic] f] l IH]; intros seen.
+  - cbn. split; [constructor|]. split; intros; contradiction.
+  - cbn [firsts]. destruct (seen_b (conn_key f) seen) eqn:E.
+    + destruct (IH seen) as (H1 & H2 & H3). split; [exact H1|]. split; [exact H2|].
+      intros c [Hc|Hc]; [subst c; cbn [snd]; apply in_or_app; left; apply seen_b_in; exact E|apply H3; exact Hc].
+    + destruct (IH (seen ++ [conn_key f])) as (H1 & H2 & H3). cbn [map].
+      assert (Hnot : ~ In (conn_key f) seen) by (rewrite <- seen_b_in; congruence).
+      split.
+      { constructor; [|exact H1]. intros Hin. apply (H2 _ Hin). apply in_or_app. right. left. reflexivity. }
+      split.
+      { intros k [Hk|Hk]; [subst k; exact Hnot|]. intros Hs. apply (H2 _ Hk). apply in_or_app. left. exact Hs. }
+      intros c [Hc|Hc].
+      { subst c. cbn [snd]. apply in_or_app. right. left. reflexivity. }
+      specialize (H3 c Hc). rewrite <- app_assoc in H3. exact H3.
+Qed.
+
+Theorem expected_schemas_distinct b :
+  NoDup (map conn_key (firsts (bag_conns b) [])) /\
+  (forall c, In c (bag_conns b) -> In (conn_key (snd c)) (map conn_key (firsts (bag_conns b) []))).
+Proof.
+  destruct (firsts_spec (bag_conns b) []) as (H1 & _ & H3). split; [exact H1|exact H3].
+Qed.
+
+Corollary expected_schema_ids b : N.of_nat (length (firsts (bag_conns b) [])) <= 65535 ->
+  map s_id (calls_schemas (expected_calls b)) = map (fun x => fst x + 1) (number_from 0 (firsts (bag_conns b) [])).
+Proof.
+  intros Hn. rewrite expected_schemas, map_map. apply map_ext_in. intros [i f] Hin.
+  apply number_from_bound in Hin. cbn. apply N.mod_small. unfold two16. lia.
+Qed.
+
+
+(* ----- channels ----- *)
+Lemma sk_get_app key sk v ext : sk_get key sk = Some v -> sk_get key (sk ++ ext) = Some v.
+Proof.
+  induction sk as [|x sk IH]; cbn [sk_get app]; [discriminate|].
+  destruct (bytes_eqb (fst x) key); [tauto|exact IH].
+Qed.
+Lemma sk_get_last key sk v : sk_get key sk = None -> sk_get key (sk ++ [(key, v)]) = Some v.
+Proof.
+  induction sk as [|x sk IH]; cbn [sk_get app fst snd].
+  - rewrite bytes_eqb_refl. reflexivity.
+  - destruct (bytes_eqb (fst x) key); [discriminate|exact IH].
+Qed.
+
+Definition sid_in (T : sktab) (fields : kvs) : N := match sk_get (conn_key fields) T with Some v => v | None => 0 end.
+Definition channel_of (T : sktab) (c : N * bytes * kvs) : channel :=
+  let '(id, topic, fields) := c in conn_channel id topic fields (sid_in T fields).
+
+Lemma recs_calls_table_ext : forall l sk sq, exists ext, fst (snd (recs_calls l (sk, sq))) = sk ++ ext.
+Proof. intros l sk sq. destruct (calls_schemas_recs l sk sq) as [_ H]. eexists. exact H. Qed.
+
+Lemma calls_channels_recs : forall l sk sq,
+  calls_channels (fst (recs_calls l (sk, sq)))
+  = map (channel_of (fst (snd (recs_calls l (sk, sq))))) (flat_map rec_conn l).
+Proof.
+  induction l as [|r l IH]; intros sk sq; [reflexivity|].
+  rewrite recs_calls_cons. cbn [fst snd flat_map]. unfold calls_channels. rewrite flat_map_app. fold calls_channels.
+  rewrite map_app.
+  destruct (rec_calls r (sk, sq)) as [c [sk1 sq1]] eqn:E. cbn [fst snd].
+  rewrite IH. f_equal.
+  destruct (recs_calls_table_ext l sk1 sq1) as [ext Hext]. rewrite Hext.
+  destruct r as [id topic fields|c0 s n d|op extra data]; cbn [rec_calls rec_conn map] in E |- *.
+  - destruct (sk_get (conn_key fields) sk) as [sid|] eqn:Es; inversion E; subst; cbn [calls_channels flat_map call_channel app channel_of];
+      unfold sid_in.
+    + rewrite (sk_get_app _ _ _ ext Es). reflexivity.
+    + rewrite (sk_get_app _ _ _ ext (sk_get_last _ _ _ Es)). reflexivity.
+  - inversion E; subst. reflexivity.
+  - inversion E; subst. reflexivity.
+Qed.
+
+(* one CChannel per connection record (repeated ones too), with the connection's id and topic, encoding "ros1",
+   the remaining header fields as metadata, and the schema id assigned to its "type/md5sum" key *)
+Theorem expected_channels b :
+  calls_channels (expected_calls b)
+  = map (channel_of (map entry_of (number_from 0 (firsts (bag_conns b) [])))) (bag_conns b).
+Proof.
+  unfold expected_calls, calls_channels. cbn [flat_map call_channel app]. rewrite flat_map_app. cbn [flat_map call_channel].
+  rewrite app_nil_r.
+  pose proof (calls_channels_recs (bag_recs b) [] 0) as Hc.
+  destruct (calls_schemas_recs (bag_recs b) [] 0) as [_ H].
+  etransitivity; [exact Hc|]. apply (f_equal (fun T => map (channel_of T) (bag_conns b))). exact H.
+Qed.
+
+(* ----- the map built from the connection data: the last field with a given key wins ----- *)
+Lemma kv_get_set_same k v : forall l, kv_get k (kv_set k v l) = v.
+Proof.
+  induction l as [|x l IH]; cbn [kv_set kv_get fst snd].
+  - rewrite bytes_eqb_refl. reflexivity.
+  - destruct (bytes_eqb (fst x) k) eqn:E1; cbn [kv_get fst snd].
+    + rewrite bytes_eqb_refl. reflexivity.
+    + destruct (bytes_ltb k (fst x)); cbn [kv_get fst snd].
+      * rewrite bytes_eqb_refl. reflexivity.
+      * rewrite E1. exact IH.
+Qed.
+Lemma kv_get_set_other k k' v : bytes_eqb k' k = false -> forall l, kv_get k (kv_set k' v l) = kv_get k l.
+Proof.
+  intros Hne. induction l as [|x l IH]; cbn [kv_set kv_get fst snd].
+  - rewrite Hne. reflexivity.
+  - destruct (bytes_eqb (fst x) k') eqn:E1; cbn [kv_get fst snd].
+    + rewrite Hne. apply bytes_eqb_eq in E1. rewrite E1, Hne. reflexivity.
+    + destruct (bytes_ltb k' (fst x)); cbn [kv_get fst snd].
+      * rewrite Hne. reflexivity.
+      * rewrite IH. reflexivity.
+Qed.
+
+Lemma kv_get_fold k : forall l acc,
+  kv_get k (fold_left (fun acc kv => kv_set (fst kv) (snd kv) acc) l acc)
+  = match kv_find k (rev l) with Some v => v | None => kv_get k acc end.
+Proof.
+  induction l as [|[k' v] l IH]; intros acc; [reflexivity|].
+  cbn [fold_left fst snd rev]. rewrite IH.
+  assert (Hf : forall a, kv_find k (a ++ [(k', v)]) = match kv_find k a with Some x => Some x | None => if bytes_eqb k' k then Some v else None end).
+  { induction a as [|y a IHa]; cbn [app kv_find fst snd]; [destruct (bytes_eqb k' k); reflexivity|].
+    destruct (bytes_eqb (fst y) k); [reflexivity|exact IHa]. }
+  rewrite Hf. destruct (kv_find k (rev l)); [reflexivity|].
+  destruct (bytes_eqb k' k) eqn:E.
+  - apply bytes_eqb_eq in E. subst k'. apply kv_get_set_same.
+  - apply kv_get_set_other. exact E.
+Qed.
+
+Theorem conn_map_get k fields :
+  kv_get k (conn_map fields) = match kv_find k (rev fields) with Some v => v | None => [] end.
+Proof. unfold conn_map. rewrite kv_get_fold. reflexivity. Qed.
+
+Corollary conn_meta_get k fields : bytes_eqb k_type k = false -> bytes_eqb k_msgdef k = false ->
+  kv_get k (conn_meta fields) = match kv_find k (rev fields) with Some v => v | None => [] end.
+Proof.
+  intros H1 H2. unfold conn_meta. rewrite !kv_get_del_other by assumption. apply conn_map_get.
+Qed.
+
+(* ----- a checkable form of `clean` (for concrete oracle tables) ----- *)
+Fixpoint prefix_b (p buf : bytes) : bool :=
+  match p, buf with
+  | [], _ => true
+  | x :: p', y :: buf' => Byte.eqb x y && prefix_b p' buf'
+  | _ :: _, [] => false
+  end.
+Fixpoint sub_b (p buf : bytes) : bool :=
+  prefix_b p buf || match buf with [] => false | _ :: r => sub_b p r end.
+Definition clean_b (buf : bytes) : bool := negb (sub_b (cc s_lz4) buf) && negb (sub_b (cc s_bz2) buf).
+
+Lemma prefix_b_app p c : prefix_b p (p ++ c) = true.
+Proof. induction p as [|x p IH]; cbn [prefix_b app]; [reflexivity|]. rewrite IH, (proj2 (byte_eqb_eq x x) eq_refl). reflexivity. Qed.
+
+Lemma has_sub_b p : forall buf, has_sub p buf -> sub_b p buf = true.
+Proof.
+  intros buf [a [c H]]. subst buf. induction a as [|x a IH]; cbn [app].
+  - destruct (p ++ c) eqn:E; cbn [sub_b]; rewrite <- E, prefix_b_app; reflexivity.
+  - cbn [sub_b]. rewrite IH. apply orb_true_r.
+Qed.
+
+Lemma clean_b_clean buf : clean_b buf = true -> clean buf.
+Proof.
+  unfold clean_b. intros H comp Hc Hs. apply has_sub_b in Hs.
+  apply andb_true_iff in H as [H1 H2]. destruct Hc; subst comp; rewrite Hs in *; discriminate.
+Qed.
+
+(* ----- the termination statement with only a length bound on the oracle is false ----- *)
+Definition walk_terminates_for_length_bounded_oracles : Prop :=
+  forall o lib compress (dstream : doracle) (B : nat) base s,
+    (forall c a e, (length (fst (dstream c a e)) <= B)%nat) ->
+    exists fuel, bag_run o lib compress dstream fuel base None s <> None.
+
+Theorem walk_terminates_for_length_bounded_oracles_false : ~ walk_terminates_for_length_bounded_oracles.
+Proof.
+  intros H.
+  destruct (H (ex_opts false) ex_lib ex_compress quine_oracle 48%nat
+              {| r_buf := quine_chunk; r_end := None; r_seek := false |}
+              {| b_w := init_state; b_seq := 0; b_schemas := [] |} quine_oracle_bounded) as [fuel Hf].
+  apply Hf. apply bag_run_diverges.
+Qed.
+
+(* ----- concrete instances (non-vacuity) ----- *)
+Definition ex_payload : bytes := str [1;2;3;4].
+Definition ex_chunk_recs : list brec :=
+  [BConn 3 (str [47;99]) ex_fields2; BMsg 3 7 8 (str [5;6])].
+Definition ex_bag_comp : abag :=
+  [ BTop [BConn 0 (str [47;97]) ex_fields1; BMsg 0 1 5 (str [1;2;3])];
+    BChunkComp s_lz4 ex_payload ex_chunk_recs;
+    BTop [BMsg 3 9 9 (str [])] ].
+Definition ex_table_oracle : doracle :=
+  fun comp a e => if bytes_eqb a ex_payload then (render_recs ex_chunk_recs, None) else ([], e).
+
+Lemma ex_table_oracle_ok : oracle_bounded_clean ex_table_oracle 200.
+Proof.
+  intros c a e. unfold ex_table_oracle. destruct (bytes_eqb a ex_payload); cbn [fst].
+  - split; [vm_compute; lia|apply clean_b_clean; vm_compute; reflexivity].
+  - split; [cbn; lia|apply clean_b_clean; reflexivity].
+Qed.
+
+Definition ex_bad_rec : brec := BConn 70000 (str [47;97]) ex_fields1.
+Lemma ex_bad_rec_bad : bad_id_rec ex_bad_rec.
+Proof. vm_compute. repeat split; reflexivity. Qed.
+
+(* ----- the stricter well-formedness of the property text, and what it adds ----- *)
+Fixpoint nodup_b (l : list bytes) : bool :=
+  match l with [] => true | x :: r => negb (seen_b x r) && nodup_b r end.
+Definition has_key (k : bytes) (l : kvs) : bool := match kv_find k l with Some _ => true | None => false end.
+Definition fields_strict (fields : kvs) : bool :=
+  nodup_b (map fst fields) && has_key k_type fields && has_key k_md5 fields && has_key k_msgdef fields.
+
+(* every message's connection id has a connection record earlier in the bag *)
+Fixpoint conns_before (l : list brec) (seen : list N) : bool :=
+  match l with
+  | [] => true
+  | BConn id _ _ :: r => conns_before r (id :: seen)
+  | BMsg c _ _ _ :: r => existsb (N.eqb c) seen && conns_before r seen
+  | BOther _ _ _ :: r => conns_before r seen
+  end.
+
+Definition bag_wf_strict (b : abag) : bool :=
+  bag_wf b
+  && forallb (fun c => fields_strict (snd c)) (bag_conns b)
+  && conns_before (bag_recs b) []
+  && (N.of_nat (length (firsts (bag_conns b) [])) <? 65535)
+  && (N.of_nat (length (bag_msgs b)) <=? two32).
+
+Lemma bag_wf_strict_wf b : bag_wf_strict b = true -> bag_wf b = true.
+Proof. unfold bag_wf_strict. intros H. repeat (apply andb_true_iff in H as [H _]). exact H. Qed.
+
+Lemma kv_find_none k : forall l, seen_b k (map fst l) = false -> kv_find k l = None.
+Proof.
+  induction l as [|x l IH]; cbn [map seen_b existsb kv_find]; [reflexivity|].
+  intros H. apply orb_false_iff in H as [H1 H2]. rewrite H1. apply IH. exact H2.
+Qed.
+
+Lemma kv_find_snoc k k' v : forall a,
+  kv_find k (a ++ [(k', v)]) = match kv_find k a with Some x => Some x | None => if bytes_eqb k' k then Some v else None end.
+Proof.
+  induction a as [|y a IHa]; cbn [app kv_find fst snd]; [destruct (bytes_eqb k' k); reflexivity|].
+  destruct (bytes_eqb (fst y) k); [reflexivity|exact IHa].
+Qed.
+
+Lemma kv_find_rev k : forall l, nodup_b (map fst l) = true -> kv_find k (rev l) = kv_find k l.
+Proof.
+  induction l as [|[k' v] l IH]; intros H; [reflexivity|].
+  cbn [map fst nodup_b] in H. apply andb_true_iff in H as [H1 H2]. apply negb_true_iff in H1.
+  cbn [rev]. rewrite kv_find_snoc, (IH H2). cbn [kv_find fst snd].
+  destruct (bytes_eqb k' k) eqn:E.
+  - apply bytes_eqb_eq in E. subst k'. rewrite (kv_find_none k l H1). reflexivity.
+  - destruct (kv_find k l); reflexivity.
+Qed.
+
+(* with distinct keys, the schema name / definition and the md5sum are the values of the fields so named *)
+Theorem fields_strict_lookup fields : fields_strict fields = true ->
+  kv_find k_type fields = Some (conn_type fields) /\
+  kv_find k_md5 fields = Some (conn_md5 fields) /\
+  kv_find k_msgdef fields = Some (conn_msgdef fields).
+Proof.
+  unfold fields_strict, has_key. intros H.
+  apply andb_true_iff in H as [H H4]. apply andb_true_iff in H as [H H3]. apply andb_true_iff in H as [H1 H2].
+  unfold conn_type, conn_md5, conn_msgdef. rewrite !conn_map_get, !(kv_find_rev _ _ H1).
+  destruct (kv_find k_type fields); [|discriminate]. destruct (kv_find k_md5 fields); [|discriminate].
+  destruct (kv_find k_msgdef fields); [|discriminate]. repeat split.
+Qed.
+
+Theorem bag2mcap_wf_strict o lib compress dstream b fuel :
+  bag_wf_strict b = true -> bag_oracle dstream b -> (bag_fuel b <= fuel)%nat ->
+  calls_ok (W o lib compress None (expected_calls b)) ->
+  let R := bag2mcap o lib compress dstream fuel (render_bag b) in
+  br_err R = None /\
+  br_writes R = r_writes (W o lib compress None (expected_calls b)) /\
+  br_final R = r_final (W o lib compress None (expected_calls b)).
+Proof. intros H. apply bag2mcap_wf. apply bag_wf_strict_wf. exact H. Qed.
